@@ -74,8 +74,8 @@ CheckHow(e) ==
   IF e.hasVal /\ ~SatisfiesRules(schema, e.val) THEN "ok"
   ELSE IF e.hasVal /\ ~ContractOK(e)
   THEN (IF "D_openapi_wkt_as_objects" \in Dev /\ WktScalarReachable(schema, e.val.type) THEN "D_openapi_wkt_as_objects"
-        ELSE IF "D_oneof_schema" \in Dev /\ OneofCfgReachable(schema, e.val.type) THEN "D_oneof_schema"
         ELSE IF "D_openapi_nested_flatten" \in Dev /\ NestedFlatten(schema, e.val.type) THEN "D_openapi_nested_flatten"
+        ELSE IF "D_oneof_schema" \in Dev /\ OneofCfgReachable(schema, e.val.type) THEN "D_oneof_schema"
         ELSE "contract_form_invalid")
   ELSE IF WireOK(e) THEN "ok"
   ELSE IF e.hasVal /\ Canon(e.json) # Enc(schema, e.val) THEN "wire_not_contract_form"   \* C05's business, not the document's
